@@ -18,7 +18,7 @@ def run(ctx):
         if not mr.violated:
             raise vlib.Infra("vacuity: LogSink mutant %s violates nothing" % m)
     hb = ctx.build("logsink")
-    ctx.run([hb, "-out", ctx.path("traces.ndjson"), "-runs", "2" if q else "12", "-goroutines", "8", "-records", "100" if q else "300"], timeout=2400)
+    ctx.run([hb, "-out", ctx.path("traces.ndjson"), "-runs", "2" if q else "12", "-hammer", "40000" if q else "300000", "-goroutines", "8", "-records", "100" if q else "300"], timeout=2400)
     rows = vlib.read_ndjson(ctx.path("traces.ndjson"))
     bad, _, _ = judge(ctx, "logger", "LogSinkCases", [{"evs": c["evs"]} for c in rows], nshards=min(16, len(rows)), workers=1, timeout=2400, xmx="3g")
     kinds = {id(c): c for c in rows}
